@@ -25,7 +25,13 @@ from .values import (
     to_number,
     to_integer_or_infinity,
 )
-from .errors import JSError, JSSyntaxError, MemoryLimitError, TimeLimitError
+from .errors import (
+    JSError,
+    JSRangeError,
+    JSSyntaxError,
+    MemoryLimitError,
+    TimeLimitError,
+)
 
 # JSON.stringify escapes only what JSON requires (quote, backslash, C0 controls)
 # and lone surrogates; every other character is emitted as is
@@ -33,6 +39,24 @@ _JSON_ESCAPES = {c: "\\u%04x" % c for c in (*range(0x20), *range(0xD800, 0xE000)
 _JSON_ESCAPES.update(
     {8: "\\b", 9: "\\t", 10: "\\n", 12: "\\f", 13: "\\r", 34: '\\"', 92: "\\\\"}
 )
+
+
+# Largest length accepted for a freshly allocated Array / typed array / ArrayBuffer
+MAX_ALLOC_LENGTH = 2**28
+
+
+def _alloc_length(value, what: str) -> int:
+    """ToIndex-style validation of a length argument given to a constructor."""
+    n = to_number(value)
+    if isinstance(n, float):
+        if math.isnan(n):
+            n = 0
+        elif math.isinf(n) or n != int(n):
+            raise JSRangeError(f"Invalid {what} length")
+        n = int(n)
+    if n < 0 or n > MAX_ALLOC_LENGTH:
+        raise JSRangeError(f"Invalid {what} length")
+    return n
 
 
 class Context:
@@ -417,8 +441,15 @@ class Context:
         array_prototype._prototype = self._object_prototype
 
         def array_constructor(*args):
-            if len(args) == 1 and isinstance(args[0], (int, float)):
-                arr = JSArray(int(args[0]))
+            if (
+                len(args) == 1
+                and isinstance(args[0], (int, float))
+                and not isinstance(args[0], bool)
+            ):
+                n = args[0]
+                if isinstance(n, float) and (math.isnan(n) or n != int(n)):
+                    raise JSRangeError("Invalid array length")
+                arr = JSArray(_alloc_length(n, "array"))
             else:
                 arr = JSArray()
                 for arg in args:
@@ -1123,9 +1154,9 @@ class Context:
             if not args:
                 return array_class(0)
             arg = args[0]
-            if isinstance(arg, (int, float)):
+            if isinstance(arg, (int, float)) and not isinstance(arg, bool):
                 # new Int32Array(length)
-                return array_class(int(arg))
+                return array_class(_alloc_length(arg, "typed array"))
             elif isinstance(arg, JSArrayBuffer):
                 # new Int32Array(buffer, byteOffset?, length?)
                 buffer = arg
@@ -1178,7 +1209,7 @@ class Context:
         from .values import JSArrayBuffer
 
         def constructor_fn(*args):
-            length = int(args[0]) if args else 0
+            length = _alloc_length(args[0], "array buffer") if args else 0
             return JSArrayBuffer(length)
 
         constructor = JSCallableObject(constructor_fn)
